@@ -20,7 +20,7 @@ pub fn property() -> Property {
     Property {
         id: "C08",
         level: "exploration",
-        rule: "family `fin` (Lab-M): 1-3 streams on a real session (client or server role) against a scripted reference peer; per stream k data frames (sizes 0 .. 65535) followed by FIN written back-to-back in one transport write with generated fragmentation, readers that start before or only after the FIN was processed and read with buffers of 1 .. 64 KiB, data written the other way before and after the FIN, sibling streams that keep being used. Oracles: P1 the reader obtains exactly the bytes sent and then end-of-stream; P2 never end-of-stream before all earlier bytes; P3 the reverse direction and the siblings still deliver after the FIN; P4 once the stream has ended the session's tables no longer hold it. Non-trivial = data still queued when the FIN is processed (late reader or >= 2 frames), or reverse-direction traffic after the FIN. Distinct = distinct serialized case. Family `srv_fin` (Lab-S, server side): a reference client over TLS opens a stream to a recording target through the real server and, unlike the real client, sends FIN (or closes its session); orders: target sends `down`, half-closes and keeps reading, then the client sends `up` and finishes / client first against an open target / target sends and closes; amounts 0..3 MB, data frames of 1..65535 bytes. Armed: every byte before the end arrives (both directions), the target then sees end-of-stream and never a failed read once both sides have finished; the missing FIN towards the client and the missing shutdown towards a still-open target fall under the listed finding. In four of ten client-first srv_fin cases the reference client does not wait for the SYNACK: open, destination, data and FIN (or the end of its session) arrive in one piece and the end is processed while the server is still dialling. In the eof family an application that half-closes after sending `up` bytes meets a target that replies with `down` bytes once it has received everything: the reply, travelling after the application's direction has ended, must arrive in full (P3). A further srv_fin order: the client sends `up` and FIN, does not read for 0.3 / 1.5 s and then reads on; the target, once it has everything, replies with `down` bytes (16 MiB when `down` >= 300000, so that the reply backs up inside the server) and closes: every byte of the reply arrives, and before any FIN for the stream. The srv_fin family also puts a quiet period in the middle of a transfer - between the two halves of the client's upload (nothing flows in either direction meanwhile) or between the two halves of the target's reply: 31 s in three fixed cases, 4 / 11 s (thorough: also 31 / 61 s) in one generated case in twenty; what is sent after the silence still arrives, before the end.",
+        rule: "family `fin` (Lab-M): 1-3 streams on a real session (client or server role) against a scripted reference peer; per stream k data frames (sizes 0 .. 65535) followed by FIN written back-to-back in one transport write with generated fragmentation, readers that start before or only after the FIN was processed and read with buffers of 1 .. 64 KiB, data written the other way before and after the FIN, sibling streams that keep being used. Oracles: P1 the reader obtains exactly the bytes sent and then end-of-stream; P2 never end-of-stream before all earlier bytes; P3 the reverse direction and the siblings still deliver after the FIN; P4 once the stream has ended the session's tables no longer hold it. Non-trivial = data still queued when the FIN is processed (late reader or >= 2 frames), or reverse-direction traffic after the FIN. Distinct = distinct serialized case. Family `srv_fin` (Lab-S, server side): a reference client over TLS opens a stream to a recording target through the real server and, unlike the real client, sends FIN (or closes its session); orders: target sends `down`, half-closes and keeps reading, then the client sends `up` and finishes / client first against an open target / target sends and closes; amounts 0..3 MB, data frames of 1..65535 bytes. Armed: every byte before the end arrives (both directions), the target then sees end-of-stream and never a failed read once both sides have finished; the missing FIN towards the client and the missing shutdown towards a still-open target fall under the listed finding. In four of ten client-first srv_fin cases the reference client does not wait for the SYNACK: open, destination, data and FIN (or the end of its session) arrive in one piece and the end is processed while the server is still dialling. In the eof family an application that half-closes after sending `up` bytes meets a target that replies with `down` bytes once it has received everything: the reply, travelling after the application's direction has ended, must arrive in full (P3). A further srv_fin order: the client sends `up` and FIN, does not read for 0.3 / 1.5 s and then reads on; the target, once it has everything, replies with `down` bytes (16 MiB when `down` >= 300000, so that the reply backs up inside the server) and closes: every byte of the reply arrives, and before any FIN for the stream. The srv_fin family also puts a quiet period in the middle of a transfer - between the two halves of the client's upload (nothing flows in either direction meanwhile) or between the two halves of the target's reply: 31 s in three fixed cases, 4 / 11 s (thorough: also 31 / 61 s) in one generated case in twenty; what is sent after the silence still arrives, before the end. Where the reference client ends by tearing its whole session down, the bytes that reach the target must be a prefix of what was sent (bytes still inside the server when a session dies are C09's subject); a stream ended by FIN is judged byte for byte.",
         assumptions: vec![
             "reference codec; tokio paused clock / current-thread scheduler; harness pipe",
             "H4 verif_table_sizes for the state-released check",
